@@ -6,7 +6,7 @@ git -C /repo worktree add -q --detach $WT HEAD || exit 3
 L=$WT/Python/libraries
 export PYTHONPATH=/tmp/shims:$L/recognizers-text:$L/recognizers-number:$L/recognizers-number-with-unit:$L/recognizers-date-time:$L/recognizers-sequence:$L/recognizers-choice:$L/recognizers-suite:$L/datatypes-timex-expression
 export PYTHONDONTWRITEBYTECODE=1
-sed "s#/tmp/wt_[A-Za-z0-9_]*#$WT#g" $SRC/demo.py > /tmp/confirm_demo_$NAME.py
+sed "s#/tmp/wt[0-9]*_[A-Za-z0-9_]*#$WT#g" $SRC/demo.py > /tmp/confirm_demo_$NAME.py
 /venv/bin/python -W ignore /tmp/confirm_demo_$NAME.py > /tmp/confirm_$NAME.before 2>&1; B=$?
 git -C $WT apply $SRC/patch.diff || { echo "patch does not apply"; }
 /venv/bin/python -W ignore /tmp/confirm_demo_$NAME.py > /tmp/confirm_$NAME.after 2>&1; A=$?
